@@ -54,7 +54,8 @@ Range(s) == {s[i] : i \in 1..Len(s)}
 IFull == cap # 0 /\ cap <= Len(ibuf)     \* capacity.is_some_and(|cap| cap.get() <= buffer.len())
 
 Record(t, op, item, r, v, w) ==
-    hist' = IF EMIT THEN Append(hist, [t |-> t, op |-> op, item |-> item, r |-> r, v |-> v, w |-> w])
+    hist' = IF EMIT THEN Append(hist, [t |-> t, op |-> op, item |-> item, r |-> r, v |-> v, w |-> w,
+                                        sp |-> ~Runnable(t)])     \* sp: a spurious poll
             ELSE hist
 
 (* Sender::send (one poll of the poll_fn), Sink::poll_ready + start_send (one poll of
